@@ -107,6 +107,23 @@ def diff_doc(a, b, path="", tol=False, mode="tol"):
     return None if a == b else "%s: %r != %r" % (path, a, b)
 
 
+def normalise_doc(d, top=True):
+    """what C15 compares: optional name keys holding null are the same as absent; the version string
+    of the header is not content"""
+    if isinstance(d, dict):
+        out = {}
+        for k, v in d.items():
+            if v is None and (k == "name" or k.endswith(":name")):
+                continue
+            if top and k == "version":
+                continue
+            out[k] = normalise_doc(v, False)
+        return out
+    if isinstance(d, list):
+        return [normalise_doc(x, False) for x in d]
+    return d
+
+
 def classify(e):
     if isinstance(e, Boom):
         return "raise:user"
@@ -227,6 +244,17 @@ class PyExec:
                 return "ok"
             d = diff_doc(self.snaps[op[1]], self.state(op[2]))
             return ("violation: %s: %s" % (op[3], d)) if d else "ok"
+        if k == "check_faithful":
+            # an accepted document must be exactly the serialisation of what was loaded
+            if op[1] not in P:
+                return "ok"
+            try:
+                got = normalise_doc(self.state(op[1]))
+            except Exception as e:  # noqa: BLE001
+                return "violation: accepted a document (%s) that yields a container whose toJson raises %s" % (op[3], type(e).__name__)
+            want = normalise_doc(canon_doc(op[2]))
+            d = diff_doc(got, want, mode="strict")
+            return ("violation: accepted a document that is not a valid serialisation (%s): %s" % (op[3], d)) if d else "ok"
         if k == "checkeq":
             d = diff_doc(self.state(op[1]), self.state(op[2]))
             return ("violation: %s: %s and %s differ: %s" % (op[3], op[1], op[2], d)) if d else "ok"
@@ -308,10 +336,10 @@ def expand(op, py):
     return op
 
 
-PY_ONLY_OPS = {"snap", "checksnap", "checksnap_if_raised", "checkeq", "pickle", "hash", "iadd_pyonly"}
+PY_ONLY_OPS = {"check_faithful", "snap", "checksnap", "checksnap_if_raised", "checkeq", "pickle", "hash", "iadd_pyonly"}
 
 
-def run_history(ops, model, check_states=True, py=None, replies=None, model_ops=None):
+def run_history(ops, model, check_states=True, py=None, replies=None, model_ops=None, expander=None):
     """Run `ops` on a fresh implementation pool and on `model` (reset first).
     Returns (divergence | None, py_exec).  After every mutating op the serialised state of every
     live handle is compared (so interference with an untouched handle shows up as well).
@@ -320,7 +348,14 @@ def run_history(ops, model, check_states=True, py=None, replies=None, model_ops=
     model.d.send(["$reset"])
     live = []
     first = None
-    for i, op in enumerate(ops):
+    queue = list(ops)
+    i = -1
+    while queue:
+        op = queue.pop(0)
+        if expander is not None and op[0] == "mutations":
+            queue = list(expander(op, py)) + queue
+            continue
+        i += 1
         op = expand(op, py)
         try:
             rp = py.apply(op)
